@@ -4,6 +4,7 @@ import (
 	"fmt"
 	"go/token"
 	"os"
+	"path/filepath"
 	"runtime/debug"
 	"strings"
 
@@ -463,6 +464,7 @@ func runC07(c *Ctx) error {
 			irGroups[g.Name] = g
 		}
 	}
+	memTargets := map[*hx.Target]*hx.Target{}
 	for i, cl := range cells {
 		t := t
 		if cl.shadow {
@@ -556,6 +558,25 @@ func runC07(c *Ctx) error {
 				}
 			}
 			res.Dist("cell:ok")
+		}
+		// the same file when it cannot be read back from disk (an in-memory overlay, a generated file): texts then come
+		// from go/printer; the run must not fail there either
+		if i%3 == 0 {
+			tm := memTargets[t]
+			if tm == nil {
+				var merr error
+				tm, merr = hx.ParseTargetMem(filepath.Base(t.Name), string(t.Src))
+				if merr != nil {
+					return fmt.Errorf("in-memory target: %v", merr)
+				}
+				memTargets[t] = tm
+			}
+			_, pk, frame, rerr := hx.Run(e, tm, hx.RunOpts{})
+			if rerr == nil && pk != "" {
+				res.Violate(hx.Violation{Signature: "run:" + pk + "@" + frame + ":file-not-on-disk", What: "Run panics when the analysed file cannot be read from disk",
+					Input: map[string]interface{}{"shape": cl.shape.name, "pattern": cl.shape.pattern, "filter": cl.filter, "action": cl.action, "file_on_disk": false}, Impl: pk + " at " + frame, Spec: "no panic"})
+			}
+			res.Dist("cell:file-not-on-disk")
 		}
 		res.Count("cells", fmt.Sprint(i), attempts > 0)
 		if i == 0 {
